@@ -439,6 +439,14 @@ class Body:
 
     def trace_place(self, p, depth=12):
         if p.get('p'):
+            pr = p['p']
+            # `_x.0` of a checked arithmetic op `_x = AddWithOverflow(a, b)` is the arithmetic result
+            if len(pr) == 1 and isinstance(pr[0], dict) and pr[0].get('f') == 0 and depth > 0:
+                sd = self.single_def(p['l'])
+                if sd and sd[2] == 'assign' and sd[3]['rv']['k'] == 'bin' and sd[3]['rv']['op'].endswith('WithOverflow'):
+                    rv = sd[3]['rv']
+                    return {'kind': 'bin', 'op': rv['op'][:-len('WithOverflow')], 'a': rv['a'], 'b': rv['b'],
+                            'block': sd[0], 'stmt': sd[1], 'checked': True}
             fl = place_fields(p)
             return {'kind': 'place', 'place': p, 'fields': fl, 'base': p['l']}
         l = p['l']
